@@ -30,6 +30,7 @@ pub fn profile_many_deps() -> Profile {
     p.unit_enum_bias = 20;
     p.prefix_names = 25;
     p.twin_names = 25;
+    p.cycles = 25;
     p
 }
 
